@@ -73,8 +73,8 @@ theorem conflict_never_across_networks (x y : DS)
       · exact absurd h hy
       · exact absurd h hne
 
-example : (DS.vote ⟨1, ⟨5, 0, 1, false, 1, 3, 3, 100⟩⟩).nid ≠ 0 ∧
-    (DS.vote ⟨1, ⟨5, 0, 1, false, 2, 3, 3, 100⟩⟩).nid ≠ 0 := by decide
+example : (DS.vote ⟨1, ⟨5, 0, 1, false, 1, 3, 3, 100, 0⟩, 0⟩).nid ≠ 0 ∧
+    (DS.vote ⟨1, ⟨5, 0, 1, false, 2, 3, 3, 100, 0⟩, 0⟩).nid ≠ 0 := by decide
 
 /-- A vote and a proposal are never evidence against each other. -/
 theorem conflict_cross_kind (v : Vote) (p : Proposal) :
@@ -94,7 +94,7 @@ theorem conflict_symm (x y : DS) : conflict x y = conflict y x := by
     networks 1 and 2 were reported as double sign. -/
 theorem f3_witness : ∃ v v2 : Vote, v.c.nid ≠ 0 ∧ v2.c.nid ≠ 0 ∧ v.c.nid ≠ v2.c.nid ∧
     voteConflictF3 v v2 = true ∧ voteConflict v v2 = false :=
-  ⟨⟨1, ⟨5, 0, 1, false, 1, 3, 3, 100⟩⟩, ⟨1, ⟨5, 0, 1, false, 2, 3, 3, 100⟩⟩, by decide⟩
+  ⟨⟨1, ⟨5, 0, 1, false, 1, 3, 3, 100, 0⟩, 0⟩, ⟨1, ⟨5, 0, 1, false, 2, 3, 3, 100, 0⟩, 0⟩, by decide⟩
 
 /-- `dsmLog`: whatever sequence of messages is logged, every reported pair is a genuine conflict
     (hence, by the theorems above: same signer, height, round, type, compatible networks,
@@ -105,7 +105,7 @@ theorem dsmLog_reports_only_conflicts (msgs : List DS) :
   obtain ⟨h1, h2, h3⟩ := Proofs.runLog_spec msgs [] [] (by simp) r hr
   exact ⟨h1, by simpa using h2, h3⟩
 
-example : runLog [] [DS.vote ⟨1, ⟨5, 0, 1, false, 1, 3, 3, 100⟩⟩, DS.vote ⟨1, ⟨5, 0, 1, false, 1, 4, 3, 100⟩⟩] ≠ [] := by
+example : runLog [] [DS.vote ⟨1, ⟨5, 0, 1, false, 1, 3, 3, 100, 0⟩, 0⟩, DS.vote ⟨1, ⟨5, 0, 1, false, 1, 4, 3, 100, 0⟩, 0⟩] ≠ [] := by
   decide
 
 
@@ -166,7 +166,7 @@ theorem report_accepted_only_for_conflict (r : Report) (e : Env) (h : accepted r
 
 example : accepted
     { hasData := true, tag := Tag.vote, ord := 0, ctx := some [0, 1, 2], sender := From.none,
-      items := [Item.msg (DS.vote ⟨1, ⟨5, 0, 1, false, 1, 3, 3, 100⟩⟩), Item.msg (DS.vote ⟨1, ⟨5, 0, 1, false, 1, 4, 3, 100⟩⟩)] }
+      items := [Item.msg (DS.vote ⟨1, ⟨5, 0, 1, false, 1, 3, 3, 100, 0⟩, 0⟩), Item.msg (DS.vote ⟨1, ⟨5, 0, 1, false, 1, 4, 3, 100, 0⟩, 0⟩)] }
     { revOn := true, blockHeight := 9, history := [(2, [0, 1, 2])], callOk := true } = true := by decide
 
 /-- The handler by itself (PreValidate is skipped for already validated transitions) succeeds
@@ -193,5 +193,29 @@ theorem report_identical_items_rejected (r : Report) (e : Env) (i : Item) (h : r
     subst this
     rw [conflict_irrefl] at hc
     cases hc
+
+
+/-! ### the unsigned part of a vote is irrelevant
+
+A `VoteMessage` also carries NTS vote bases and NTS proof parts (`Vote.u`); the signature covers
+only `blockVoteBase` + `Timestamp` (`Vote.c`).  `IsConflictWith` compares the hashes of the signed
+payloads, so two messages with the same signed contents are never evidence, whatever their
+unsigned parts are — in particular an honest precommit re-sent with another NTS section hash. -/
+
+/-- Votes with identical signed contents never conflict, whatever their unsigned parts. -/
+theorem vote_same_signed_contents_no_conflict (v v2 : Vote) (h : v.c = v2.c) : voteConflict v v2 = false := by
+  cases hc : voteConflict v v2 with
+  | false => rfl
+  | true => exact absurd h ((vote_conflict_iff v v2).1 hc).2.2.2.2.2
+
+/-- The verdict does not depend on the unsigned parts at all. -/
+theorem vote_conflict_ignores_unsigned (v v2 : Vote) (a b : Nat) :
+    voteConflict { v with u := a } { v2 with u := b } = voteConflict v v2 := rfl
+
+/-- Hence dsmLog never reports, and the report path never accepts, a pair with equal signed contents. -/
+theorem conflict_implies_signed_contents_differ (v v2 : Vote) (h : conflict (DS.vote v) (DS.vote v2) = true) :
+    v.c ≠ v2.c := ((vote_conflict_iff v v2).1 (by simpa [conflict] using h)).2.2.2.2.2
+
+example : voteConflict ⟨1, ⟨5, 0, 1, false, 1, 3, 3, 100, 1⟩, 1⟩ ⟨1, ⟨5, 0, 1, false, 1, 3, 3, 100, 1⟩, 2⟩ = false := by decide
 
 end Goloop.C06
